@@ -57,7 +57,7 @@ type fakeCA struct {
 	newOrders map[string]int // domain -> newOrder requests
 	issued    map[string]int // domain|keytype -> certificates issued
 	refuse    map[string]string
-	gate      func()
+	gate      func(domain string)
 	trouble   []string // requests the CA could not make sense of (harness trouble, not a property violation)
 	requests  int
 }
@@ -233,7 +233,7 @@ func (ca *fakeCA) RoundTrip(req *http.Request) (*http.Response, error) {
 		refuse := ca.refuse[domain]
 		ca.mu.Unlock()
 		if gate != nil {
-			gate()
+			gate(domain)
 		}
 		if refuse == "order" {
 			return ca.problem(req, 403, "rejectedIdentifier", "policy forbids issuance for "+domain), nil
